@@ -330,7 +330,7 @@ def reuse_dump(storage_dir: str, backend: str, which: int):
         pre = [lab.is_cached(t) for t in tasks]
         listed = {type(t) for t in tasks}
         ct = {x.cache_key: x.result_meta for ty in listed for x in lab.cached_tasks([ty])}
-        res = lab.run_tasks(tasks, bust_cache=bust, disable_progress=True, disable_top=True)
+        res = lab.run_tasks(tasks, **({'bust_cache': True} if bust else {}), disable_progress=True, disable_top=True)
         st = started()
         out.append({'phase': name, 'rows': [
             {'key': t.cache_key, 'canon': repr(canon(t)), 'cached_before': p, 'executed': t.cache_key in st, 'value': repr(res.get(t, '<missing>')),
